@@ -93,7 +93,8 @@ Definition chunk (p : part) (d : bytes) (r : cresp) : part * bytes * cres :=
            end
   | CStall b =>
       if need <=? zlen b then (adv (Z.max need 0), write_at d at_ (take b), COk)
-      else (adv (zlen b), write_at d at_ b, CStalled)
+      else (p, write_at d at_ b, CStalled)        (* the errgroup cancels the request with cause errPartStalled, which is what
+                                                     the body read then returns: not context.Canceled, so progress is rolled back *)
   | CCancel b =>
       if need <=? zlen b then (adv (Z.max need 0), write_at d at_ (take b), COk)
       else (adv (zlen b), write_at d at_ b, CCancelled)
@@ -386,3 +387,9 @@ Definition pull_store (x : store * pres_pull * list dtrace) : store := fst (fst 
 
 Fixpoint iter_n {A : Type} (n : nat) (f : A -> A) (x : A) : A :=
   match n with O => x | S n' => f (iter_n n' f x) end.
+
+(** ** server start: PruneLayers removes every file of the blobs directory whose name is not a digest (the -partial
+    files and part records) and every blob no manifest references *)
+Definition startup_prune (st : store) : store :=
+  let used := flat_map (fun nm => digests_of (snd nm)) (s_man st) in
+  mkStore (filter (fun kv => memb (fst kv) used) (s_blobs st)) [] (s_man st).
